@@ -44,7 +44,7 @@ TEXT = {
          BASE + "Assumed contracts on lower_once/rechunk/cache; payload arithmetic bounded only.", T),
  "C24": ("Region composition (_compose_slices, all steps), sliced chunk sizes (_compute_sliced_chunks) and the slice-into-source rewrite (FromArray._accept_slice: the new region keeps unit steps - what the offset reads of _layer require -, equals the composition, chunks add up) are proved from the real source for all inputs; that every request to a recording source is an in-bounds basic slice returning NumPy's elements is a bounded stand-in, also with the NumPy eager-slice limit set to 0.",
          BASE + "_layer and _accept_rechunk are bounded only; rank > 1 by the per-axis structure of the code.", T),
- "C25": ("The region/block index composition store relies on (fuse_slice, slice and integer cases, _normalize_slice_for_fusion) is proved from the real source for all inputs. End-to-end writes (whole target, offset and strided regions, several pairs, delayed, return_stored) are a bounded stand-in over the catalogue; F8 is a recorded known finding.",
+ "C25": ("The region/block index composition store relies on (fuse_slice: slice, integer and tuple-of-slices cases at rank 1 and 2, _normalize_slice_for_fusion) is proved from the real source for all inputs, and so is the store kernel load_store_chunk at rank 1 (effect log: exactly one element store into the target, at region composed with the block index, the block as value; none for an empty block). End-to-end writes (whole target, offset and strided regions, several pairs, delayed, return_stored) are a bounded stand-in over the catalogue; F8 is a recorded known finding.",
          BASE + "load_store_chunk's single write site is covered by the C10 frame analysis; npy-stack round trip and locks are not covered.", T),
  "C26": ("Decided for all import orders by a static import-effect analysis over every dask_array module: nothing executed at import time can reach xarray registration; register() is the only caller of _ensure_registered; no entry point.",
          "Trusted: Python's import semantics as modelled (module top levels, class bodies, decorators, defaults). The 'same values' clause and xarray's own plugin discovery are not decided.", TF),
